@@ -9,6 +9,16 @@ Reads the x86-64 FIBER_FAST_SWITCHING branch of $VERIF_REPO/src/fiber_context.c
     (swap_inputs / swap_outputs), its clobber list (swap_clobbers), whether
     it is `volatile`, and whether the asm statement is the last statement of
     the function (swap_asm_is_last);
+  * the NON-asm statements of fiber_context_swap that precede the asm, in
+    order, each with the preprocessor condition it is under
+    (FIBER_STACK_SPLIT / __SANITIZE_THREAD__) and whether it is unconditional
+    in C (swap_prologue): asserts, the two operand declarations,
+    __splitstack_getcontext(from) / __splitstack_setcontext(to),
+    __tsan_switch_to_fiber(to), the prefetches.  `if (c) call;` around a
+    recognised call is recorded as CONDITIONAL (a match lemma then fails);
+    any other statement shape is rejected;
+  * how fiber_context_init / fiber_context_destroy call the stack allocator
+    (init_alloc_calls, destroy_free_calls, destroy_guard_not_thread);
   * the initial frame that fiber_context_init builds: the stack-top
     expression, the alignment mask, and the ordered list of
     `*--ctx_stack_pointer = ...` pushes / bare decrements (init_pushes).
@@ -144,6 +154,173 @@ def drop_nested_conditionals(lines, what):
     if depth:
         reject("unterminated nested #if")
     return out
+
+
+def mark_nested_conditionals(lines, what):
+    """keep the nested #if structure as marker statements `__VF_IF("cond");` /
+    `__VF_ENDIF();` so that every C statement can be tagged with its guard."""
+    out, depth = [], 0
+    for line in lines:
+        d = re.match(r"^\s*#\s*(\w+)\s*(.*?)\s*$", line)
+        if not d:
+            out.append(line)
+            continue
+        kind, rest = d.group(1), d.group(2)
+        if kind == "include":
+            continue
+        if kind in ("ifdef", "if"):
+            depth += 1
+            out.append('__VF_IF("%s");' % rest.replace('"', ""))
+        elif kind == "endif":
+            if depth == 0:
+                reject("unbalanced #endif inside the x86_64 branch")
+            depth -= 1
+            out.append("__VF_ENDIF();")
+        else:
+            reject("%s: preprocessor directive not modelled inside the x86_64 branch: %s"
+                   % (what, line.strip()))
+    if depth:
+        reject("unterminated nested #if")
+    return out
+
+
+GUARDS = {"FIBER_STACK_SPLIT": "GSplit", "__SANITIZE_THREAD__": "GTsan"}
+
+
+def guarded_statements(body, what):
+    """[(guard, statement)] of a function body whose nested conditionals were marked."""
+    out, stack = [], []
+    for st in split_statements(body):
+        m = re.fullmatch(r'__VF_IF\("(.*)"\);', st)
+        if m:
+            if stack:
+                reject("%s: nested preprocessor conditionals two deep are not modelled" % what)
+            if m.group(1) not in GUARDS:
+                reject("%s: preprocessor condition %r is not one of %s"
+                       % (what, m.group(1), sorted(GUARDS)))
+            stack.append(GUARDS[m.group(1)])
+            continue
+        if st == "__VF_ENDIF();":
+            stack.pop()
+            continue
+        if "__VF_" in st:
+            reject("%s: a preprocessor conditional cuts through a statement: %s" % (what, st[:80]))
+        out.append((stack[-1] if stack else "GAlways", st))
+    return out
+
+
+def split_if(sq):
+    """squeezed `if(COND)BODY` -> (COND, BODY) or None"""
+    if not sq.startswith("if("):
+        return None
+    depth, j = 1, 3
+    while j < len(sq) and depth:
+        depth += {"(": 1, ")": -1}.get(sq[j], 0)
+        j += 1
+    if depth:
+        reject("unbalanced parentheses in: %s" % sq[:80])
+    return sq[3:j - 1], sq[j:]
+
+
+def classify_prologue(sq, frm, to, locals_, where):
+    """kind of one (squeezed) statement that precedes the asm in fiber_context_swap;
+    returns (kind, unconditional)."""
+    f, t = re.escape(frm), re.escape(to)
+    if re.fullmatch(r"assert\((%s|%s)\);" % (f, t), sq):
+        return "KAssert", True
+    m = re.fullmatch(r"void\*\*\*const(\w+)=&%s->ctx_stack_pointer;" % f, sq)
+    if m:
+        locals_["from_sp"] = m.group(1)
+        return "KDeclFromSlot", True
+    m = re.fullmatch(r"void\*\*const(\w+)=%s->ctx_stack_pointer;" % t, sq)
+    if m:
+        locals_["to_sp"] = m.group(1)
+        return "KDeclToSp", True
+    if re.fullmatch(r"__splitstack_getcontext\(%s->splitstack_context\);" % f, sq):
+        return "KSplitGetFrom", True
+    if re.fullmatch(r"__splitstack_setcontext\(%s->splitstack_context\);" % t, sq):
+        return "KSplitSetTo", True
+    if re.fullmatch(r"__tsan_switch_to_fiber\(%s->tsan_fiber,0\);" % t, sq):
+        return "KTsanSwitchTo", True
+    if "to_sp" in locals_ and re.fullmatch(
+            r"__builtin_prefetch\((\(void\*\*\))?%s([+-]\d+(/\d+)?)?,[01],[0-3]\);"
+            % re.escape(locals_["to_sp"]), sq):
+        return "KPrefetchTo", True
+    cond = split_if(sq)
+    if cond:
+        c, body = cond
+        if body.startswith("{") and body.endswith("}"):
+            body = body[1:-1]
+        if body.count(";") == 1 and body.endswith(";"):
+            kind, unc = classify_prologue(body, frm, to, locals_, where)
+            if kind.startswith("KDecl"):
+                reject("%s: a declaration inside an if: %s" % (where, sq[:100]))
+            return kind, False          # recorded as CONDITIONAL: the match lemma will fail
+    reject("%s: statement before the asm is not of a recognised shape: %s" % (where, sq[:120]))
+
+
+def parse_prologue(marked):
+    names, body = find_function(marked, "fiber_context_swap")
+    if len(names) != 2:
+        reject("fiber_context_swap: expected 2 parameters, found %r" % names)
+    frm, to = names
+    out, locals_ = [], {}
+    for guard, st in guarded_statements(body, "fiber_context_swap"):
+        if re.match(r"^(__asm__|__asm|asm)\b", st):
+            if guard != "GAlways":
+                reject("fiber_context_swap: the asm statement is inside a preprocessor conditional")
+            break
+        kind, unc = classify_prologue(squeeze(st), frm, to, locals_, "fiber_context_swap")
+        out.append((guard, kind, unc))
+    return out
+
+
+def parse_stack_calls(marked, first_sp_after_alloc=True):
+    """how fiber_context_init / fiber_context_destroy call the stack allocator."""
+    names, body = find_function(marked, "fiber_context_init")
+    ctx, size = names[0], names[1]
+    n_alloc, alloc_first, seen_sp = 0, True, False
+    for guard, st in guarded_statements(body, "fiber_context_init"):
+        sq = squeeze(st)
+        if "ctx_stack_pointer" in sq:
+            seen_sp = True
+        if "fiber_context_alloc_stack" in sq:
+            if guard != "GAlways" or not re.fullmatch(
+                    r"if\(!fiber_context_alloc_stack\(%s,%s\)\)\{returnFIBER_ERROR;\}"
+                    % (re.escape(ctx), re.escape(size)), sq):
+                reject("fiber_context_init: unrecognised use of fiber_context_alloc_stack: %s" % sq[:120])
+            n_alloc += 1
+            if seen_sp:
+                alloc_first = False
+        elif re.search(r"\b(malloc|mmap|free|munmap|fiber_free_stack|__splitstack_\w+)\(", sq):
+            reject("fiber_context_init: direct allocator call is not modelled: %s" % sq[:120])
+    names, body = find_function(marked, "fiber_context_destroy")
+    if len(names) != 1:
+        reject("fiber_context_destroy: expected 1 parameter")
+    c = re.escape(names[0])
+    top = split_statements(body)
+    n_free, guard_not_thread = 0, False
+    if len(top) == 1:
+        cond = split_if(squeeze(top[0]))
+        if cond and re.fullmatch(r"%s&&!%s->is_thread" % (c, c), cond[0]):
+            guard_not_thread = True
+    if not guard_not_thread:
+        reject("fiber_context_destroy: body is not `if (ctx && !ctx->is_thread) { ... }`")
+    m = re.search(r"\{(.*)\}\s*$", top[0], re.S)
+    for guard, st in guarded_statements(m.group(1), "fiber_context_destroy"):
+        sq = squeeze(st)
+        if re.fullmatch(r"fiber_free_stack\(%s\);" % c, sq):
+            if guard != "GAlways":
+                reject("fiber_context_destroy: fiber_free_stack under a preprocessor conditional")
+            n_free += 1
+        elif re.fullmatch(r"STACK_DEREGISTER\(%s\);" % c, sq):
+            pass
+        elif guard == "GTsan" and re.fullmatch(r"__tsan_destroy_fiber\(%s->tsan_fiber\);" % c, sq):
+            pass
+        else:
+            reject("fiber_context_destroy: statement not of a recognised shape: %s" % sq[:120])
+    return {"n_alloc": n_alloc, "alloc_first": alloc_first, "n_free": n_free,
+            "guard_not_thread": guard_not_thread}
 
 
 def find_function(text, name):
@@ -677,6 +854,11 @@ def render(init, swap):
     a("Definition swap_outputs : list reg := [" + "; ".join(r.upper() for r in swap["outputs"]) + "].")
     a("Definition swap_clobbers : list clobber := [" + "; ".join(swap["clobbers"]) + "].")
     a("Definition swap_volatile : bool := %s." % ("true" if swap["volatile"] else "false"))
+    a("(* every statement of fiber_context_swap that precedes the asm, in order, with the")
+    a("   preprocessor condition it is under and whether it is unconditional in C *)")
+    a("Definition swap_prologue : list pcall :=")
+    a("  [ " + ";\n    ".join("PCall %s %s %s" % (g, k, "true" if u else "false")
+                              for (g, k, u) in swap["prologue"]) + " ].")
     a("(* the asm statement is the last statement of fiber_context_swap *)")
     a("Definition swap_asm_is_last : bool := %s." % ("true" if swap["is_last"] else "false"))
     a("")
@@ -686,6 +868,15 @@ def render(init, swap):
     a("Definition init_align_mask : Z := %s." % coq_z(init["mask"]))
     a("Definition init_pushes : list init_item :=")
     a("  [" + "; ".join(init["items"]) + "].")
+    sc = init["stack_calls"]
+    a("(* stack management: top-level `if (!fiber_context_alloc_stack(ctx, size)) return FIBER_ERROR;`")
+    a("   statements of fiber_context_init (and whether they precede every use of the stack")
+    a("   pointer); fiber_free_stack(ctx) calls of fiber_context_destroy, whose whole body is")
+    a("   `if (ctx && !ctx->is_thread) { ... }` *)")
+    a("Definition init_alloc_calls : nat := %d." % sc["n_alloc"])
+    a("Definition init_alloc_first : bool := %s." % ("true" if sc["alloc_first"] else "false"))
+    a("Definition destroy_free_calls : nat := %d." % sc["n_free"])
+    a("Definition destroy_guard_not_thread : bool := %s." % ("true" if sc["guard_not_thread"] else "false"))
     a("(* mask of the alignment assert that follows the pushes (-1: no assert) *)")
     a("Definition init_assert_mask : Z := %s." % coq_z(init["assert_mask"]))
     a("")
@@ -702,6 +893,9 @@ def translate():
     branch = "\n".join(drop_nested_conditionals(lines, "x86_64 branch"))
     init = parse_init(branch)
     swap = parse_swap(branch)
+    marked = "\n".join(mark_nested_conditionals(lines, "x86_64 branch"))
+    swap["prologue"] = parse_prologue(marked)
+    init["stack_calls"] = parse_stack_calls(marked)
     return init, swap
 
 
